@@ -107,7 +107,7 @@ enum Req {
     Lock(Ds),
     Unlock(Ds),
     KillSession,
-    Commit { confirmed: bool, timeout: bool, persist: bool, persist_id: bool },
+    Commit { confirmed: bool, timeout: bool, persist: bool, persist_id: bool, rev: bool },
     CancelCommit { persist_id: bool },
     DiscardChanges,
     Validate(Src),
@@ -155,7 +155,8 @@ fn gen_req(ctx: &mut Ctx) -> Req {
             let timeout = confirmed && ctx.pick(2) == 1;
             let persist = confirmed && ctx.pick(2) == 1;
             let persist_id = !confirmed && ctx.pick(2) == 1;
-            Req::Commit { confirmed, timeout, persist, persist_id }
+            // the builder calls are made in either order: a check must not depend on what was set before it
+            Req::Commit { confirmed, timeout, persist, persist_id, rev: ctx.pick(2) == 1 }
         }
         9 => Req::CancelCommit { persist_id: ctx.pick(2) == 1 },
         10 => Req::DiscardChanges,
@@ -206,7 +207,7 @@ fn intended_requirements(r: &Req) -> Option<Cnf> {
         Req::Partial(..) => return None,
         Req::Lock(d) | Req::Unlock(d) => d.as_source(),
         Req::KillSession => vec![],
-        Req::Commit { confirmed, timeout, persist, persist_id } => {
+        Req::Commit { confirmed, timeout, persist, persist_id, .. } => {
             let mut c = vec![any(&["candidate"])];
             if *confirmed || *timeout {
                 c.push(any(&["cc10", "cc11"]));
@@ -415,20 +416,18 @@ async fn issue(s: &mut Session<SimTransport>, r: &Req) -> Result<(), Error> {
         Req::Lock(d) => s.rpc::<Lock, _>(|b| b.target(d.lib())?.finish()).await?.await,
         Req::Unlock(d) => s.rpc::<Unlock, _>(|b| b.target(d.lib())?.finish()).await?.await,
         Req::KillSession => s.rpc::<KillSession, _>(|b| b.session_id(4711)?.finish()).await?.await,
-        Req::Commit { confirmed, timeout, persist, persist_id } => {
+        Req::Commit { confirmed, timeout, persist, persist_id, rev } => {
             s.rpc::<Commit, _>(|b| {
                 let mut b = b;
-                if confirmed {
-                    b = b.confirmed(true)?;
-                }
-                if timeout {
-                    b = b.confirm_timeout(Duration::from_secs(120))?;
-                }
-                if persist {
-                    b = b.persist(Some(Token::new("tok-1")))?;
-                }
-                if persist_id {
-                    b = b.persist_id(Some(Token::new("tok-1")))?;
+                let steps: [usize; 4] = if rev { [3, 2, 1, 0] } else { [0, 1, 2, 3] };
+                for step in steps {
+                    b = match step {
+                        0 if confirmed => b.confirmed(true)?,
+                        1 if timeout => b.confirm_timeout(Duration::from_secs(120))?,
+                        2 if persist => b.persist(Some(Token::new("tok-1")))?,
+                        3 if persist_id => b.persist_id(Some(Token::new("tok-1")))?,
+                        _ => b,
+                    };
                 }
                 b.finish()
             })
